@@ -259,6 +259,20 @@ def run(ctx: Ctx) -> None:
                         ctx.ok("R13.4", f"arg {p}={norm(a)} is not a process-local queue")
                 else:
                     ctx.ok("R13.4", f"arg {p}={norm(a)} is not a process-local queue")
-            # results registry written by workers is irrelevant for Process only if outputs are files; noted
+            # in-memory outputs: a writer-factory product (MemIO) registered in the parent is filled by the CHILD process and never comes back
+            exf = shared.szf(ctx, "_extract")
+            mem_regs = [x for x in q.calls(exf) if attr_tail(x) == "register_filelike" and len(x.args) > 1
+                        and any(isinstance(y, ast.Call) and attr_tail(y) == "MemIO" for y in ast.walk(x.args[1]))]
+            for wc in [x for x in q.calls(exf) if "py7zr:Worker.extract" in shared.targets_of(ctx, exf, x)]:
+                par = next((k.value for k in wc.keywords if k.arg == "parallel"), wc.args[2] if len(wc.args) > 2 else None)
+                srcs = [par] + list(q.sources_of(exf, par, depth=3)) if par is not None else []
+                guarded = any(isinstance(n, ast.Name) and n.id == "writer_factory" for e in srcs for n in ast.walk(e)) or \
+                    any(isinstance(n, ast.Attribute) and n.attr == "mp" for e in srcs for n in ast.walk(e))
+                if mem_regs and not guarded:
+                    ctx.fail("R13.4", exf, wc, "with mp=True folder tasks are processes, but extraction into a writer factory registers in-memory writers (MemIO) in the parent: "
+                             "the children fill their own copies, extract(targets, factory=...) / extractall(factory=...) return normally and the factory's products stay empty",
+                             construct="Process task with in-memory writers")
+                else:
+                    ctx.ok("R13.4", "in-memory writers are not handed to process tasks")
         else:
             ctx.ok("R13.4", f"spawn primitive set {sorted(prims)} needs no process-shared channel")
